@@ -307,10 +307,20 @@ StdStatus == [c \in StdCodes |->
     [] c \in {"BLOB_UPLOAD_INVALID", "RANGE_INVALID"} -> 416
     [] c = "UNAUTHORIZED" -> 401 [] c = "DENIED" -> 403 [] c = "TOOMANYREQUESTS" -> 429
     [] OTHER -> 400]
-\* a backend answer: "ok", a standard code, or "uncoded" (an error without an OCI code)
-Answers == {"ok", "uncoded"} \cup StdCodes
-ErrStatus(a) == IF a \in StdCodes THEN StdStatus[a] ELSE 500
-ErrCode(a) == IF a \in StdCodes THEN a ELSE "UNKNOWN"
+\* A backend answer: "ok", a standard code, "custom" (an OCI error whose code has no tabled
+\* status), or "uncoded" (an error without an OCI code).  Every error of one script comes in the
+\* script's shape sc.eshape: "bare"; "wrap" (inside fmt %w); "http" = NewHTTPError(err, sc.estatus,
+\* nil, nil); "httpresp" / "httprespbody" = NewHTTPError(err, sc.estatus, a real *http.Response,
+\* nil / a body) - what a relaying ociclient backend returns.  The wrapper's status may agree with
+\* the table or not: a STANDARD code is always answered with its tabled status, whatever the
+\* wrapper says; only for a code without a tabled status ("custom", and UNKNOWN for an uncoded
+\* error) the wrapper's own status is used, and 500 when there is no HTTP wrapper.
+Answers == {"ok", "uncoded", "custom"} \cup StdCodes
+CustomCode == "CUSTOM_CODE"
+HttpShapes == {"http", "httpresp", "httprespbody"}
+Shapes == {"bare", "wrap"} \cup HttpShapes
+ErrStatus(sc, a) == IF a \in StdCodes THEN StdStatus[a] ELSE IF sc.eshape \in HttpShapes THEN sc.estatus ELSE 500
+ErrCode(a) == IF a \in StdCodes THEN a ELSE IF a = "custom" THEN CustomCode ELSE "UNKNOWN"
 
 \* ------------------------------------------------ responses, calls, objects
 EmptyF == [x \in {} |-> 0]
@@ -339,7 +349,8 @@ NoLink == [chk |-> FALSE, has |-> FALSE, last |-> <<>>]
 Exact(kind, status, code, hdrs, nbody, calls, objs) ==
   [kind |-> kind, mode |-> "exact", st |-> {status}, status |-> status, code |-> code, hdrs |-> hdrs, nbody |-> nbody,
    calls |-> calls, objs |-> objs, list |-> NoList, link |-> NoLink]
-Failed(kind, a, calls, objs) == Exact(kind, ErrStatus(a), ErrCode(a), EmptyF, -1, calls, objs)
+Failed(sc, kind, a, calls, objs) == Exact(kind, ErrStatus(sc, a), ErrCode(a), EmptyF, -1, calls, objs)
+FailedPlain(kind, calls, objs) == Exact(kind, 500, "UNKNOWN", EmptyF, -1, calls, objs)     \* an error that is not the backend's
 Reject(kind, S) ==
   [kind |-> kind, mode |-> "reject", st |-> S, status |-> 0, code |-> "", hdrs |-> EmptyF, nbody |-> -1,
    calls |-> <<>>, objs |-> <<>>, list |-> NoList, link |-> NoLink]
@@ -371,7 +382,7 @@ ListOutcome(sc, n) ==
   ELSE [err |-> sc.iterr, items |-> sc.items, truncated |-> FALSE]
 
 (* rq = [m, path, q, h = [range, crange, ctype, cl], body = [n, sha, json, subj]]
-   sc = [ans, size, mt, rdig, id, chunk, wsize, werr, cerr, merr, items, iterr, rfail, rcerr]
+   sc = [ans, size, mt, rdig, id, chunk, wsize, werr, cerr, merr, items, iterr, rfail, rcerr, eshape, estatus]
         ans: answer of the (first) Interface call; size / mt / rdig: the descriptor the backend
         reports (a reader serves that many bytes, or the requested part of them);
         id / chunk / wsize: ID(), ChunkSize() and initial Size() of a writer; werr / cerr /
@@ -385,38 +396,38 @@ Handle(a, rq, sc, o) ==
       ok == sc.ans = "ok"
       startUpload ==
         LET c == <<[Call("PushBlobChunked", repo) EXCEPT !.a = 0]>> IN
-        IF ~ok THEN Failed(k, sc.ans, c, <<>>)
+        IF ~ok THEN Failed(sc, k, sc.ans, c, <<>>)
         ELSE IF ~IdUsable(sc.id) THEN Reject(k, AnyErr)
         ELSE Exact(k, 202, "", "loc" :> H(UploadLoc(repo, sc.id)) @@ "range" :> H(<<48, 45, 48>>) @@ "chunkmin" :> H(Dec(sc.chunk)),
                    0, c, <<Obj("w", 0, 0, <<>>)>>)
       byTag == a.tag # <<>>
       \* a 201: Location (own or first of LocationsForDescriptor) and Docker-Content-Digest of what the backend reports
       created(own, extra, c, objs) ==
-        IF o.locs = "err" THEN Failed(k, "uncoded", c, objs)
+        IF o.locs = "err" THEN FailedPlain(k, c, objs)
         ELSE Exact(k, 201, "", "loc" :> H(IF GivesLoc(o) THEN LocURL(sc.rdig, 1) ELSE own) @@ "dcd" :> H(sc.rdig) @@ extra, 0, c, objs)
   IN
   CASE k = "Ping" -> Exact(k, 200, "", EmptyF, 0, <<>>, <<>>)
     [] k = "BlobHead" ->
          LET c == <<[Call("ResolveBlob", repo) EXCEPT !.dig = a.dig]>> IN
-         IF ~ok THEN Failed(k, sc.ans, c, <<>>)
+         IF ~ok THEN Failed(sc, k, sc.ans, c, <<>>)
          ELSE Exact(k, 200, "", "clen" :> H(Dec(sc.size)) @@ "dcd" :> H(sc.rdig), 0, c, <<>>)
     [] k = "BlobGet" ->
          LET r == RangeOf(h.range)
              lfd == o.locs # "nil"
              pre == IF lfd THEN <<[Call("ResolveBlob", repo) EXCEPT !.dig = a.dig]>> ELSE <<>>
          IN
-         IF lfd /\ ~ok THEN Failed(k, sc.ans, pre, <<>>)
-         ELSE IF lfd /\ o.locs = "err" THEN Failed(k, "uncoded", pre, <<>>)
+         IF lfd /\ ~ok THEN Failed(sc, k, sc.ans, pre, <<>>)
+         ELSE IF lfd /\ o.locs = "err" THEN FailedPlain(k, pre, <<>>)
          ELSE IF lfd /\ GivesLoc(o) THEN Exact(k, 307, "", "loc" :> H(LocURL(sc.rdig, 1)), -1, pre, <<>>)
          ELSE IF r.cls = "none" THEN
               LET c == pre \o <<[Call("GetBlob", repo) EXCEPT !.dig = a.dig]>> IN
-              IF ~ok THEN Failed(k, sc.ans, c, <<>>)
+              IF ~ok THEN Failed(sc, k, sc.ans, c, <<>>)
               ELSE Exact(k, 200, "", "ctype" :> H(sc.mt) @@ "clen" :> H(Dec(sc.size)) @@ "dcd" :> H(a.dig) @@ "crange" :> NoHdr,
                          Served(sc, sc.size), c, <<RObj(sc, sc.size)>>)
          ELSE IF r.cls = "one" THEN
               LET c == pre \o <<[Call("GetBlobRange", repo) EXCEPT !.dig = a.dig, !.a = r.start, !.b = r.end]>>
                   end == IF r.end = -1 \/ r.end > sc.size THEN sc.size ELSE r.end
-              IN IF ~ok THEN Failed(k, sc.ans, c, <<>>)
+              IN IF ~ok THEN Failed(sc, k, sc.ans, c, <<>>)
                  ELSE IF r.start > sc.size THEN Exact(k, 416, "UNKNOWN", EmptyF, -1, c, <<Obj("r", 0, 0, <<>>)>>)
                  ELSE Exact(k, 206, "", "ctype" :> H(sc.mt) @@ "clen" :> H(Dec(end - r.start)) @@ "dcd" :> H(a.dig)
                                         @@ "crange" :> H(S_bytes \o Dec(r.start) \o <<ChDashC>> \o Dec(end - 1) \o <<ChSlash>> \o Dec(sc.size)),
@@ -424,20 +435,20 @@ Handle(a, rq, sc, o) ==
          ELSE FreeResp(k)
     [] k = "BlobDelete" ->
          LET c == <<[Call("DeleteBlob", repo) EXCEPT !.dig = a.dig]>> IN
-         IF ~ok THEN Failed(k, sc.ans, c, <<>>) ELSE Exact(k, 202, "", EmptyF, 0, c, <<>>)
+         IF ~ok THEN Failed(sc, k, sc.ans, c, <<>>) ELSE Exact(k, 202, "", EmptyF, 0, c, <<>>)
     [] k = "StartUpload" -> startUpload
     [] k = "UploadBlob" ->
          IF o.nosingle THEN startUpload
          ELSE LET c == <<[Call("PushBlob", repo) EXCEPT !.dig = a.dig, !.a = h.cl, !.b = body.n, !.mt = MT_octet]>> IN
-              IF ~ok THEN Failed(k, sc.ans, c, <<>>)
+              IF ~ok THEN Failed(sc, k, sc.ans, c, <<>>)
               ELSE created(BlobLoc(repo, sc.rdig), EmptyF, c, <<>>)
     [] k = "Mount" ->
          LET c == <<[Call("MountBlob", repo) EXCEPT !.dig = a.dig, !.from = a.from]>> IN
-         IF ~ok THEN Failed(k, sc.ans, c, <<>>)
+         IF ~ok THEN Failed(sc, k, sc.ans, c, <<>>)
          ELSE created(BlobLoc(repo, a.dig), EmptyF, c, <<>>)
     [] k = "UploadInfo" ->
          LET c == <<[Call("PushBlobChunkedResume", repo) EXCEPT !.id = a.id, !.a = -1, !.b = 0]>> IN
-         IF ~ok THEN Failed(k, sc.ans, c, <<>>)
+         IF ~ok THEN Failed(sc, k, sc.ans, c, <<>>)
          ELSE IF ~IdUsable(sc.id) THEN Reject(k, AnyErr)
          ELSE Exact(k, 204, "", "loc" :> H(UploadLoc(repo, sc.id)) @@ "range" :> H(RangeStr(0, sc.wsize)), 0, c, <<Obj("w", 0, 0, <<>>)>>)
     [] k \in {"UploadChunk", "CompleteUpload"} ->
@@ -447,23 +458,23 @@ Handle(a, rq, sc, o) ==
              written == IF wfail THEN 0 ELSE body.n
          IN IF cr.cls = "rej" THEN Reject(k, AnyErr)
             ELSE IF cr.cls = "free" THEN FreeResp(k)
-            ELSE IF ~ok THEN Failed(k, sc.ans, c, <<>>)
-            ELSE IF wfail THEN Failed(k, sc.werr, c, <<Obj("w", 0, 0, <<>>)>>)
+            ELSE IF ~ok THEN Failed(sc, k, sc.ans, c, <<>>)
+            ELSE IF wfail THEN Failed(sc, k, sc.werr, c, <<Obj("w", 0, 0, <<>>)>>)
             ELSE IF k = "UploadChunk" THEN
-                 IF sc.cerr # "ok" THEN Failed(k, sc.cerr, c, <<Obj("w", written, 0, <<>>)>>)
+                 IF sc.cerr # "ok" THEN Failed(sc, k, sc.cerr, c, <<Obj("w", written, 0, <<>>)>>)
                  ELSE IF ~IdUsable(sc.id) THEN Reject(k, AnyErr)
                  ELSE Exact(k, 202, "", "loc" :> H(UploadLoc(repo, sc.id)) @@ "range" :> H(RangeStr(0, sc.wsize + written)),
                             0, c, <<Obj("w", written, 0, <<>>)>>)
-            ELSE IF sc.merr # "ok" THEN Failed(k, sc.merr, c, <<Obj("w", written, 1, a.dig)>>)
+            ELSE IF sc.merr # "ok" THEN Failed(sc, k, sc.merr, c, <<Obj("w", written, 1, a.dig)>>)
             ELSE created(BlobLoc(repo, sc.rdig), EmptyF, c, <<Obj("w", written, 1, a.dig)>>)
     [] k = "ManifestGet" ->
          LET c == <<IF byTag THEN [Call("GetTag", repo) EXCEPT !.tag = a.tag] ELSE [Call("GetManifest", repo) EXCEPT !.dig = a.dig]>> IN
-         IF ~ok THEN Failed(k, sc.ans, c, <<>>)
+         IF ~ok THEN Failed(sc, k, sc.ans, c, <<>>)
          ELSE Exact(k, 200, "", "ctype" :> H(sc.mt) @@ "clen" :> H(Dec(sc.size)) @@ "dcd" :> (IF o.omitdig THEN NoHdr ELSE H(sc.rdig)),
                     Served(sc, sc.size), c, <<RObj(sc, sc.size)>>)
     [] k = "ManifestHead" ->
          LET c == <<IF byTag THEN [Call("ResolveTag", repo) EXCEPT !.tag = a.tag] ELSE [Call("ResolveManifest", repo) EXCEPT !.dig = a.dig]>> IN
-         IF ~ok THEN Failed(k, sc.ans, c, <<>>)
+         IF ~ok THEN Failed(sc, k, sc.ans, c, <<>>)
          ELSE Exact(k, 200, "", "ctype" :> H(sc.mt) @@ "clen" :> H(Dec(sc.size)) @@ "dcd" :> (IF o.omitdig /\ ~byTag THEN NoHdr ELSE H(sc.rdig)),
                     0, c, <<>>)
     [] k = "ManifestPut" ->
@@ -477,16 +488,16 @@ Handle(a, rq, sc, o) ==
          IN IF ~byTag /\ a.dig # body.sha THEN Reject(k, E400)
             ELSE IF parsed /\ body.json = "invalid" THEN Reject(k, AnyErr)
             ELSE IF parsed /\ body.json = "other" THEN FreeResp(k)
-            ELSE IF ~ok THEN Failed(k, sc.ans, c, <<>>)
+            ELSE IF ~ok THEN Failed(sc, k, sc.ans, c, <<>>)
             ELSE created(ManifestLoc(repo, sc.rdig), hd, c, <<>>)
     [] k = "ManifestDelete" ->
          LET c == <<IF byTag THEN [Call("DeleteTag", repo) EXCEPT !.tag = a.tag] ELSE [Call("DeleteManifest", repo) EXCEPT !.dig = a.dig]>> IN
-         IF ~ok THEN Failed(k, sc.ans, c, <<>>) ELSE Exact(k, 202, "", EmptyF, 0, c, <<>>)
+         IF ~ok THEN Failed(sc, k, sc.ans, c, <<>>) ELSE Exact(k, 202, "", EmptyF, 0, c, <<>>)
     [] k \in {"TagsList", "Catalog"} ->
          LET c == <<IF k = "TagsList" THEN [Call("Tags", repo) EXCEPT !.last = a.last] ELSE [Call("Repositories", <<>>) EXCEPT !.last = a.last]>>
              lo == ListOutcome(sc, a.n)
          IN IF o.maxpage > 0 /\ a.n > o.maxpage THEN Reject(k, AnyErr)
-            ELSE IF lo.err # "ok" THEN Failed(k, lo.err, c, <<>>)
+            ELSE IF lo.err # "ok" THEN Failed(sc, k, lo.err, c, <<>>)
             ELSE [Exact(k, 200, "", "clen" :> H(<<>>), -1, c, <<>>)       \* Content-Length: present, value = body length (Universal)
                   EXCEPT !.list = [chk |-> TRUE, name |-> repo, items |-> lo.items],
                          !.link = [chk |-> TRUE, has |-> lo.truncated /\ ~o.omitlink, last |-> IF lo.truncated THEN lo.items[Len(lo.items)] ELSE <<>>]]
@@ -494,7 +505,7 @@ Handle(a, rq, sc, o) ==
          LET c == <<[Call("Referrers", repo) EXCEPT !.dig = a.dig]>>
              lo == ListOutcome(sc, -1)
          IN IF o.noref THEN Reject(k, E404)
-            ELSE IF lo.err # "ok" THEN Failed(k, lo.err, c, <<>>)
+            ELSE IF lo.err # "ok" THEN Failed(sc, k, lo.err, c, <<>>)
             ELSE [Exact(k, 200, "", "clen" :> H(<<>>) @@ "ctype" :> H(MT_index), -1, c, <<>>)
                   EXCEPT !.list = [chk |-> TRUE, name |-> <<>>, items |-> lo.items]]
 
